@@ -3,9 +3,12 @@ package checks
 // C09 — every way a program can end is classified per the documented status table, in each runner.
 
 import (
+	"context"
+	"errors"
 	"fmt"
 	"os"
 	"path/filepath"
+	"sync"
 	"syscall"
 	"testing"
 	"time"
@@ -27,6 +30,10 @@ type c09Case struct {
 	Fault    string
 	Children string // none | exits-first | killed | still-running | child-raises-benign
 	M        int    // child's exit code / signal
+	// container runners: calls made on the same pooled environment right before this run (a verdict must not depend on
+	// what the environment was used for before): refuse-after (SyncAfterExec, callback refuses), refuse-before,
+	// cancelled (context cancelled while the program sleeps), orphans (a program that exits leaving 4 signal-ignoring children)
+	Prelude []string `json:",omitempty"`
 }
 
 var c09Runners = []string{"ptrace", "unshare", "container", "container-after"}
@@ -90,6 +97,52 @@ func (e *c09Env) close() {
 		os.RemoveAll(e.root)
 		e.env = nil
 	}
+}
+
+// c09Prelude makes one earlier call on the environment. Its own result is judged only as far as the statement goes:
+// a Runner Error carries an explanation.
+func c09Prelude(env container.Environment, kind string) error {
+	var s probe.Script
+	o := sandboxOpts{Script: &s, Env: env, Tag: newTag(), Timeout: 20 * time.Second}
+	defer killTagged(o.Tag)
+	switch kind {
+	case "refuse-after", "refuse-before":
+		s.Add("sleep:100000")
+		s.Add("exit:0")
+		o.SyncAfterExec = kind == "refuse-after"
+		o.SyncFunc = func(int) error { return errors.New("prelude: callback refuses") }
+	case "cancelled":
+		s.Add("sleep:100000")
+		s.Add("exit:0")
+		ctx, cancel := context.WithCancel(context.Background())
+		o.Ctx = ctx
+		time.AfterFunc(3*time.Millisecond, cancel)
+		defer cancel()
+	case "orphans":
+		for i := 0; i < 4; i++ {
+			s.Add("fork{")
+			s.Add("sigign")
+			s.Add("sleep:100000")
+			s.Add("}")
+		}
+		s.Add("exit:0")
+	default:
+		return vh.Infraf("unknown prelude %q", kind)
+	}
+	tr, err := runContainer(o)
+	if err != nil {
+		return err
+	}
+	if tr.Hung {
+		return vh.Violf("C09:hung", "prelude %s did not return in 20s", kind)
+	}
+	if tr.Result.Status == runner.StatusRunnerError && tr.Result.Error == "" {
+		return vh.Violf("C09:runner-error-empty", "prelude %s: Runner Error without explanation", kind)
+	}
+	if kind == "orphans" && tr.Result.Status != runner.StatusNormal {
+		return vh.Violf("C09:misclassified/children", "prelude orphans (exit 0 leaving 4 children): got %q exit %d error %q", tr.Result.Status.String(), tr.Result.ExitStatus, tr.Result.Error)
+	}
+	return nil
 }
 
 func c09Producible(c c09Case) bool {
@@ -206,6 +259,14 @@ func c09Run(c c09Case, ce *c09Env, rec *vh.Recorder) error {
 		if err != nil {
 			return err
 		}
+		for _, pk := range c.Prelude {
+			if err := c09Prelude(env, pk); err != nil {
+				if _, infra := err.(vh.Infra); !infra {
+					ce.close()
+				}
+				return err
+			}
+		}
 		var sync func(int) error
 		if c.Runner == "container-after" {
 			sync = func(int) error { return nil }
@@ -261,14 +322,20 @@ func c09Run(c c09Case, ce *c09Env, rec *vh.Recorder) error {
 		return vh.Violf(key, "%+v: got status %q exit %d (error %q), table says %q exit %d", c, res.Status.String(), res.ExitStatus, res.Error, want.String(), wantExit)
 	}
 	nt := c.Ending != "exit" || c.N != 0 || c.Children != "none"
-	rec.Case(c, nt, "runner="+c.Runner, "ending="+c.Ending, "children="+c.Children)
+	classes := []string{"runner=" + c.Runner, "ending=" + c.Ending, "children=" + c.Children}
+	if c.Runner == "container" || c.Runner == "container-after" {
+		for _, pk := range c.Prelude {
+			classes = append(classes, "pooled-after="+pk)
+		}
+	}
+	rec.Case(c, nt, dedup(classes)...)
 	if nt && rec.WantSample() {
 		rec.Sample(map[string]any{"case": c, "status": res.Status.String(), "exit": res.ExitStatus})
 	}
 	return nil
 }
 
-const c09Rule = "case = runner in {ptrace, namespace(unshare), container sync-before, container sync-after} x ending in {exit n (0..255), self-sent signal with default disposition (every terminating signal 1..64), real fault (SEGV/FPE/ILL/BUS/TRAP), SIGSYS from a kill-default filter, SIGKILL sent from the host} x children behaviour in {none, child exits m first, child killed by a signal, child still running and ignoring signals at exit, child dies of SIGUSR1}; oracle = README status table; " +
+const c09Rule = "case = runner in {ptrace, namespace(unshare), container sync-before, container sync-after} x ending in {exit n (0..255), self-sent signal with default disposition (every terminating signal 1..64), real fault (SEGV/FPE/ILL/BUS/TRAP), SIGSYS from a kill-default filter, SIGKILL sent from the host} x children behaviour in {none, child exits m first, child killed by a signal, child still running and ignoring signals at exit, child dies of SIGUSR1} x (container runners) 0..3 earlier calls on the same pooled environment in {callback refuses after exec, callback refuses before exec, cancelled run, program that leaves 4 orphans}; oracle = README status table; " +
 	"rows the kernel cannot produce (self-sent signals to a pid-namespace init; signals the container init leaves ignored) are counted as not-producible; non-trivial = non-zero exit, a signal, or children; the grid test enumerates runner x ending exhaustively (all 256 codes in the thorough tier)"
 
 func TestC09Grid(t *testing.T) {
@@ -313,12 +380,9 @@ func TestC09Grid(t *testing.T) {
 	rec.Extra("grid_cells", len(cases))
 }
 
-func TestC09Random(t *testing.T) {
-	rec := vh.NewRecorder(t, "C09", "exploration", c09Rule)
-	ce := &c09Env{}
-	defer ce.close()
+func c09GenCase() func(rt *rapid.T) c09Case {
 	sigs := c09FatalSignals()
-	vh.Check(t, rec, func(rt *rapid.T) c09Case {
+	return func(rt *rapid.T) c09Case {
 		c := c09Case{Runner: rapid.SampledFrom(c09Runners).Draw(rt, "runner"),
 			Ending:   rapid.SampledFrom([]string{"exit", "exit", "raise", "raise", "fault", "sigsys", "hostkill"}).Draw(rt, "ending"),
 			Children: rapid.SampledFrom([]string{"none", "exits-first", "killed", "still-running", "child-raises-benign"}).Draw(rt, "children")}
@@ -338,6 +402,98 @@ func TestC09Random(t *testing.T) {
 			c.M = rapid.SampledFrom([]int{int(syscall.SIGKILL), int(syscall.SIGUSR1), int(syscall.SIGALRM), int(syscall.SIGPIPE), int(syscall.SIGUSR2)}).Draw(rt, "msig")
 		}
 		return c
+	}
+}
+
+func TestC09Random(t *testing.T) {
+	rec := vh.NewRecorder(t, "C09", "exploration", c09Rule)
+	ce := &c09Env{}
+	defer ce.close()
+	gen := c09GenCase()
+	vh.Check(t, rec, func(rt *rapid.T) c09Case {
+		c := gen(rt)
+		if c.Runner == "container" || c.Runner == "container-after" {
+			for n := rapid.SampledFrom([]int{0, 0, 1, 2, 3}).Draw(rt, "npre"); n > 0; n-- {
+				c.Prelude = append(c.Prelude, rapid.SampledFrom([]string{"refuse-after", "refuse-before", "cancelled", "orphans", "orphans"}).Draw(rt, "prelude"))
+			}
+		}
+		return c
 	}, func(c c09Case) error { return c09Run(c, ce, rec) })
 	_ = filepath.Join
+}
+
+// ---- several runs at the same time in one process ---------------------------------------------------------------
+
+type c09ConcCase struct {
+	Runs    []c09Case
+	Stagger []int // start delay of each run in units of 100 us
+}
+
+func TestC09Concurrent(t *testing.T) {
+	rec := vh.NewRecorder(t, "C09", "exploration", "concurrent part: 2..6 generated (runner, ending, children) cases run at the same time in one process (each ptrace run on its own goroutine, each container case on an environment of its own), staggered by 0..2 ms; each result is judged by the same table as when run alone; non-trivial = >=2 runs of >=2 runner kinds, one of them a ptrace run")
+	rec.Assume("which run's events interleave with which is the OS scheduler's; repeated cases sample it")
+	const slots = 6
+	envs := make([]*c09Env, slots)
+	for i := range envs {
+		envs[i] = &c09Env{}
+	}
+	defer func() {
+		for _, e := range envs {
+			e.close()
+		}
+	}()
+	gen := c09GenCase()
+	vh.Check(t, rec, func(rt *rapid.T) c09ConcCase {
+		var c c09ConcCase
+		n := rapid.IntRange(2, slots).Draw(rt, "nruns")
+		for i := 0; i < n; i++ {
+			r := gen(rt)
+			if i == 0 {
+				r.Runner = "ptrace"
+			}
+			if r.Ending == "hostkill" && rapid.Bool().Draw(rt, "nohostkill") {
+				r.Ending, r.N = "exit", 20 // keep most runs short-lived and self-ending
+			}
+			c.Runs = append(c.Runs, r)
+			c.Stagger = append(c.Stagger, rapid.IntRange(0, 20).Draw(rt, "stagger"))
+		}
+		return c
+	}, func(c c09ConcCase) error {
+		sub := vh.NewDetachedRecorder("C09")
+		errs := make([]error, len(c.Runs))
+		var wg sync.WaitGroup
+		start := make(chan struct{})
+		for i := range c.Runs {
+			wg.Add(1)
+			go func(i int) {
+				defer wg.Done()
+				<-start
+				if i < len(c.Stagger) {
+					time.Sleep(time.Duration(c.Stagger[i]) * 100 * time.Microsecond)
+				}
+				errs[i] = c09Run(c.Runs[i], envs[i%slots], sub)
+			}(i)
+		}
+		close(start)
+		wg.Wait()
+		kinds := map[string]bool{}
+		for _, r := range c.Runs {
+			kinds[r.Runner] = true
+		}
+		rec.Case(c, len(kinds) >= 2, fmt.Sprintf("concurrent-runs=%d", len(c.Runs)), fmt.Sprintf("runner-kinds=%d", len(kinds)))
+		rec.Evals(len(c.Runs))
+		if rec.WantSample() && len(c.Runs) <= 3 {
+			rec.Sample(c)
+		}
+		for i, e := range errs {
+			if e != nil {
+				if v, ok := e.(*vh.Violation); ok {
+					v.Key += "/concurrent"
+					v.Detail = fmt.Sprintf("run %d of %d concurrent runs: %s", i, len(c.Runs), v.Detail)
+				}
+				return e
+			}
+		}
+		return nil
+	})
 }
